@@ -1,6 +1,6 @@
 (* C10 - Progress: caller-frame steps advance, no state repeats, walks terminate.
    Every module kind of the model: no data, DWARF, PE (after the repairs of S9b and S9c). *)
-From FH Require Import Consts Word X86 A64 Unwinder X86Unw A64Unw X86Exec A64Exec X86Walk A64Walk FpChain WalkProgress.
+From FH Require Import Consts Word X86 A64 Unwinder X86Unw A64Unw X86Exec A64Exec X86Walk A64Walk FpChain HistFacts StaticFacts TruncWalk WalkProgress WalkStatic.
 From Coq Require Import List. Import ListNotations.
 Open Scope N_scope.
 
@@ -90,6 +90,21 @@ Theorem C10_walk_terminates_x86 : forall u m it L,
     iter_next_x u m it1 = (r, it2) /\ forall f, r <> Ok (Some f).
 Proof. exact walk_terminates_x. Qed.
 Print Assumptions C10_walk_terminates_x86.
+
+(* "walking any stack whose readable memory is finite terminates", with no premise about register width, for
+   unwinders all of whose steps are rule-based (all_static: cache hits, statically classified rules and errors,
+   the fallback - see C11): a successful x86_64 rule step has READ its return address from the word below the
+   new sp, so with nothing readable at or above B the walk stops within 2 (B + 7 - sp) + 2 calls - at once
+   when sp already lies above the readable memory *)
+Theorem C10_walk_terminates_finite_memory_x86 : forall u m B it,
+  all_static rule mdata cb_static_x86 u ->
+  (forall a, B <= a -> m a = None) ->
+  caller_x it ->
+  exists k it1 r it2,
+    N.of_nat k <= 2 * (B + 7 - sp_of it) + 1 /\ steps exec_x fallback_rule cb_x86 u m it k it1 /\
+    iter_next_x u m it1 = (r, it2) /\ forall f, r <> Ok (Some f).
+Proof. intros u m B it St Fin. exact (walk_terminates_finite_memory_x u m St B Fin it). Qed.
+Print Assumptions C10_walk_terminates_finite_memory_x86.
 
 Theorem C10_walk_reaches_caller_a64 : forall u m pc rg c it2,
   steps aexec afallback_rule cb_a64 u m (iter_new _ _ pc rg c) 2 it2 -> caller_a it2.
